@@ -8,7 +8,7 @@
 (*  C13  exporters: neutral gate list read back from the exported artefact   *)
 (*  C14  composition operators on QCircuit objects                          *)
 (***************************************************************************)
-EXTENDS Circuit, QSim, Decompile, CircuitOps, TLC, Json, IOUtils
+EXTENDS Circuit, QSim, Decompile, DecOpt, CircuitOps, TLC, Json, IOUtils
 
 Cases == JsonDeserialize(IOEnv.CASES)
 VARIABLE i
@@ -53,10 +53,15 @@ C11(c) ==
   IN IF bad # {} THEN <<"fail", SectionOK(c, c.sections[MinOf(bad)]), MinOf(bad) - 1>>
      ELSE IF \E j \in cl : Cardinality(covered(j)) # 1 THEN <<"fail", "classical-gate-not-in-exactly-one-section", MinOf({j \in cl : Cardinality(covered(j)) # 1}) - 1>>
      ELSE \* refinement binding: the transcribed scanner (Decompile.tla) predicts the reported ranges
-          LET pred == Sections(c.gates) IN
-          <<"ok", IF Len(pred) = Len(c.sections) /\ \A k \in 1..Len(pred) :
+          \* and the transcribed symbolic execution predicts each section's expression list, structurally
+          LET pred == Sections(c.gates)
+              scan == Len(pred) = Len(c.sections) /\ \A k \in 1..Len(pred) :
                         pred[k].s = c.sections[k].s /\ pred[k].e = c.sections[k].e /\ pred[k].n = Len(NonBar(c.sections[k].gates))
-                  THEN "scanner-model-conforms" ELSE "scanner-model-drift", Len(c.sections)>>
+              exprs == \A k \in 1..Len(c.sections) :
+                         LET m == SectionExprs(c.sections[k].gates, c.names)
+                             r == c.sections[k].exprs
+                         IN Len(m) = Len(r) /\ \A j \in 1..Len(m) : m[j][1] = r[j][1] /\ m[j][2] = CanonE(r[j][2])
+          IN <<"ok", IF ~scan THEN "scanner-model-drift" ELSE IF ~exprs THEN "expression-model-drift" ELSE "scanner-model-conforms", Len(c.sections)>>
 
 ---------------------------------------------------------------------------
 (* C12.  case: gin (input gates), gin_after, gout, nq, nq_out, exc          *)
@@ -68,7 +73,24 @@ C12(c) ==
   ELSE IF Len(NonBar(c.gout)) > Len(NonBar(c.gin)) THEN <<"fail", "more-gates-than-original", Len(NonBar(c.gout))>>
   ELSE IF AnyOpaque(c.gin) \/ AnyOpaque(c.gout) THEN <<"skip", "opaque-gate", 0>>
   ELSE LET d == FirstDiff(c.gin, c.gout, c.nq) IN
-       IF d = -1 THEN <<"ok", "", Len(NonBar(c.gin)) - Len(NonBar(c.gout))>> ELSE <<"fail", "different-unitary", d>>
+       IF d # -1 THEN <<"fail", "different-unitary", d>>
+       ELSE \* refinement binding: the visited sections are the decompiler model's (last first), and the transcribed
+            \* accept / splice logic (DecOpt.tla) applied to the recorded re-syntheses gives the returned gate list
+            LET recs == [k \in 1..Len(c.secs) |->
+                           [s |-> c.secs[k].s, e |-> c.secs[k].e, ngates |-> c.secs[k].ngates,
+                            secq |-> {c.secs[k].secq[j] : j \in 1..Len(c.secs[k].secq)}, raised |-> c.secs[k].raised,
+                            new |-> c.secs[k].new, used |-> {c.secs[k].used[j] : j \in 1..Len(c.secs[k].used)},
+                            qmap |-> [n \in DOMAIN c.secs[k].qmap \ {"__pad__"} |-> c.secs[k].qmap[n]],
+                            qmapnew |-> [n \in DOMAIN c.secs[k].qmapnew \ {"__pad__"} |-> c.secs[k].qmapnew[n]]]]
+                 pred == Sections(c.gin)
+                 visited == Len(pred) = Len(recs) /\ \A k \in 1..Len(recs) :
+                              recs[k].s = pred[Len(pred) + 1 - k].s /\ recs[k].e = pred[Len(pred) + 1 - k].e
+                 conf == IF ~c.hooked THEN "no-sections-recorded"
+                         ELSE IF ~visited THEN "decopt-model-drift:sections-visited"
+                         ELSE IF ~OrderOK(recs) THEN "decopt-model-drift:order"
+                         ELSE IF Cores(Splice(c.gin, recs, 1)) # Cores(c.gout) THEN "decopt-model-drift:splice"
+                         ELSE "decopt-model-conforms"
+            IN <<"ok", conf, Len(NonBar(c.gin)) - Len(NonBar(c.gout))>>
 
 ---------------------------------------------------------------------------
 (* C14.  case: steps = << [op, ..., before, after, exc] >> where before / after are the snapshots  *)
